@@ -131,7 +131,13 @@ impl Compiler {
         // Loading runs the global declarations (kept free of calls and diverts
         // by the check above, so this ends): what the runtime cannot load is
         // not a story.
-        if let Err(error) = bladeink::story::Story::new(&story_json) {
+        let loaded = std::panic::catch_unwind(|| {
+            bladeink::story::Story::new(&story_json)
+                .map(|_| ())
+                .map_err(|error| error.to_string())
+        })
+        .unwrap_or_else(|_| Err("the runtime panicked while loading it".to_owned()));
+        if let Err(error) = loaded {
             return Err(CompilerError::invalid_source(format!(
                 "the compiled story cannot be loaded: {error}"
             ))
